@@ -5,6 +5,7 @@ mod c05;
 mod c05x;
 mod c06;
 mod c06msg;
+mod c06sim;
 mod c07;
 mod c08;
 mod boundary;
